@@ -1154,6 +1154,30 @@ SPECS.append(dict(D2_COMMON, name="Dec2.init", func="Decryptor.__init__", theore
                   state_calls={"self.get_cipher_type": dict(kind="shared", lean="Dec2.get_cipher_type", exts=[], args=[], ret="None"),
                                "self.parse_keys": dict(kind="shared", lean="Dec2.parse_keys", exts=[], args=["Table Str; Option Bytes"], ret="None")}))
 
+# main.py options (C10): `MapPortsAction.__call__` (the two `setattr` on the namespace as a record: what `-m` stores and
+# `keep_original_ports`; `self.dest` is "mapports", the dest argparse derives from `--mapports`), `get_port_map` (`int(str)` is the external
+# `py_int`, instantiated with the model's `pyInt`; `parser.mapports : Option (List Str)`, `none` = attribute absent or None), and the
+# built-in port list / the `-p` default / `server_ports.extend([int(x) …])`.
+GROUPS["Opts"] = dict(imports=["TLX.PyRt", "TLX.Options"], decls=[], options=["set_option linter.unusedVariables false"])
+SPECS.append(dict(name="Opts.MapPortsAction_call", group="Opts", file=MAINF, func="MapPortsAction.__call__", theorem="Opts.MapPortsAction_call_eq_model",
+                  params=[("values", "List Str")], ret="None", list_truth=True, setattr_names={"self.dest": "mapports"},
+                  places=[("namespace.mapports", "mapports", "List Str", "rw"),
+                          ("namespace.keep_original_ports", "keep", "Bool", "rw")]))
+SPECS.append(dict(name="Opts.get_port_map", group="Opts", file=MAINF, func="get_port_map", theorem="Opts.get_port_map_eq_model",
+                  params=[], ret="Table Int; Int", externals=[("py_int", "List Nat → Option Int")],
+                  places=[("parser.mapports", "mapports", "Option (List Str)", "r")], absent_or_none=["parser.mapports"],
+                  locals={"port_map": "Table Int; Int"}))
+SPECS.append(dict(name="Opts.extend_server_ports", group="Opts", file=MAINF, func="run", theorem="Opts.extend_server_ports_eq_model",
+                  select={"start": "server_ports.extend([int(x) for x in args.serverports])"},
+                  params=[], externals=[("py_int", "List Nat → Option Int")],
+                  places=[("server_ports", "server_ports", "List Int", "rw"), ("args.serverports", "serverports", "List Str", "r")]))
+# the same statement when `-p` is absent: argparse stores its default, a list of ints (`int(x)` of an int is the int)
+SPECS.append(dict(name="Opts.extend_server_ports_default", group="Opts", file=MAINF, func="run", theorem="Opts.extend_server_ports_eq_model",
+                  select={"start": "server_ports.extend([int(x) for x in args.serverports])"},
+                  params=[], places=[("server_ports", "server_ports", "List Int", "rw"), ("args.serverports", "serverports", "List Int", "r")]))
+SPECS.append(dict(name="Opts.builtin_server_ports", group="Opts", kind="table", file=MAINF, func=None, target="server_ports", type="List Int",
+                  theorem="Opts.extend_server_ports_eq_model"))
+
 THEOREMS = _uniq(theorem_of(s) for s in SPECS)
 
 
@@ -1183,7 +1207,7 @@ CHECK_GROUPS = {
     "C07": ["Ports", "Builders"],
     "C08": ["Main2"],
     "C09": ["Keylog"],
-    "C10": ["Ports", "Builders"],
+    "C10": ["Ports", "Builders", "Opts"],
     "C11": ["Checksum"],
     "C13": ["TlsSess", "TlsSess2"],
     "C14": ["Suites"],
@@ -1976,6 +2000,46 @@ def _kl_cases(rng, call):
     return out
 
 
+def _opts_cases(rng, call):
+    """main.py options (group Opts): `MapPortsAction.__call__` on a namespace, `get_port_map` on namespaces with and without `mapports`
+    (the translation with the model's `pyInt` as `py_int` against CPython's `int`), the `server_ports.extend` statement of `run`.
+    The strings stay below U+0100: `TLX.Options.pyInt` models `int()` on latin-1 text only (its header says so); CPython's `int` also
+    accepts other Unicode decimal digits and spaces (`int("\u0661") == 1`), where the instantiated external and CPython differ."""
+    import importlib
+    import argparse
+    main = importlib.import_module("tlexport.main")
+    out = []
+    st = lambda x: "([" + ", ".join(str(ord(c)) for c in x) + "] : List Nat)"
+    sl = lambda xs: "([" + ", ".join(st(x) for x in xs) + "] : List (List Nat))"
+    il = lambda xs: "([" + ", ".join(f"({x} : Int)" for x in xs) + "] : List Int)"
+    num = lambda: rng.choice(["443", "8080", " 80", "+5", "-1", "1_0", "4 4", "", "x", "0x10", "65536", "1__0", "\t7\n", "_1", "\xa07", "\x1c7"])
+    tok = lambda: rng.choice([f"{num()}:{num()}", f"{num()}:{num()},", f"{num()}", f"{num()}:{num()}:{num()}", f"4,43:{num()}", ":", ""])
+    for _ in range(3):
+        vals = [tok() for _ in range(rng.randint(0, 3))]
+        ns = argparse.Namespace()
+        call(main.MapPortsAction.__call__, types.SimpleNamespace(dest="mapports"), None, ns, list(vals))
+        out.append(("(fun v => let r := Opts.MapPortsAction_call v; (r.mapports, r.keep))", sl(vals),
+                    f"({sl(ns.mapports)}, {_bool(ns.keep_original_ports)})"))
+    for _ in range(5):
+        vals = [tok() for _ in range(rng.randint(0, 4))]
+        if rng.random() < 0.4:
+            vals = [f"{rng.choice([443, 80, 1])}:{rng.randint(1, 9)}" for _ in range(rng.randint(1, 4))]
+        ns = rng.choice([argparse.Namespace(), argparse.Namespace(mapports=None), argparse.Namespace(mapports=vals), argparse.Namespace(mapports=vals)])
+        k, v = call(main.get_port_map, ns)
+        arg = f"(some {sl(ns.mapports)})" if getattr(ns, "mapports", None) is not None else "(none : Option (List (List Nat)))"
+        exp = ("[" + ", ".join(f"(({a} : Int), ({b} : Int))" for a, b in v.items()) + "]") if k == "ok" else None
+        out.append(("Opts.get_port_map TLX.Options.pyInt", arg, f".ok {exp}" if k == "ok" else f".error .{v}"))
+    for _ in range(3):
+        vals = [num() for _ in range(rng.randint(0, 3))]
+        sp0 = [rng.randint(0, 70000) for _ in range(rng.randint(0, 3))]
+        sp = list(sp0)
+        k, v = call(lambda a: sp.extend([int(x) for x in a]), vals)          # the statement of `run` (its text is what is translated)
+        out.append(("Opts.extend_server_ports TLX.Options.pyInt", f"{il(sp0)} {sl(vals)}",
+                    f".ok () {{ server_ports := {il(sp)} }}" if k == "ok" else f".raised .{v} {{ server_ports := {il(sp)} }}"))
+    out.append(("Opts.builtin_server_ports", "", il(main.server_ports)))
+    return out
+
+
 def _d2_cases(rng, call):
     """Decryptor.__init__ (group Decrypt2) on an object made without it, with the real `cryptography` classes (ARC4 keys of 16 / 3 bytes
     or None, `ChaCha20(key)` without a nonce); the attributes the constructor does not assign are sentinels on the Lean side and
@@ -2683,6 +2747,7 @@ def _cases(rng, n):
         out.extend(_kl_cases(rng, call))
         out.extend(_qs3_cases(rng, call))
         out.extend(_d2_cases(rng, call))
+        out.extend(_opts_cases(rng, call))
         for _ in range(2):
             out.extend(_bld_cases(rng, call))
         # output builders
